@@ -255,7 +255,7 @@ def r4_let_chain(src, item, ed, opts):
     """`if let P = e && c {B}` (no else) -> `if let P = e { if c {B} }`"""
     for n in nodes_of(item, "if"):
         ch = n.get("chain")
-        if not ch:
+        if not ch or len(ch) < 2:
             continue
         if "else" in n:
             raise Unsupported(f"let-chain with else in {item['path']}")
@@ -333,8 +333,8 @@ def r14_str_eq(src, item, ed, opts):
         l = src.text(*n["left"])
         r = src.text(*n["right"])
         neg = "!" if n["op"] == "!=" else ""
-        fn = sp.get("fn", "vx_str_eq")
-        ed.replace(n["range"][0], n["range"][1], f"{neg}{fn}({l}, {r})", "R14", subsume=True)
+        to = sp.get("to", "vx_str_eq({l}, {r})")
+        ed.replace(n["range"][0], n["range"][1], neg + to.format(l=l, r=r), "R14", subsume=True)
         ed.count("R14")
 
 
@@ -452,6 +452,13 @@ def r24_call_shim(src, item, ed, opts):
             c = [n for n in nodes_of(item, "unary") if n["op"] == sp["op"]]
         elif kind == "unsafe":
             c = nodes_of(item, "unsafe")
+        elif kind == "ref_index":
+            idx = {tuple(x["range"]): x for x in nodes_of(item, "index")}
+            c = [n for n in nodes_of(item, "ref") if tuple(n["expr"]) in idx and (sp.get("base") is None or src.text(*idx[tuple(n["expr"])]["expr"]).replace(" ", "") == sp["base"].replace(" ", ""))]
+            for n in c:
+                n["_idx"] = idx[tuple(n["expr"])]
+        elif kind == "index":
+            c = [n for n in nodes_of(item, "index") if sp.get("base") is None or src.text(*n["expr"]).replace(" ", "") == sp["base"].replace(" ", "")]
         elif kind == "cast":
             c = [n for n in nodes_of(item, "cast") if n["ty"] == sp["ty"]]
         else:
@@ -477,6 +484,12 @@ def r24_call_shim(src, item, ed, opts):
                 env["expr"] = src.text(*n["expr"])
             elif kind == "unsafe":
                 env["block"] = src.text(n["block"][0] + 1, n["block"][1] - 1)
+            elif kind == "ref_index":
+                env["base"] = src.text(*n["_idx"]["expr"])
+                env["index"] = src.text(*n["_idx"]["index"])
+            elif kind == "index":
+                env["base"] = src.text(*n["expr"])
+                env["index"] = src.text(*n["index"])
             elif kind == "macro":
                 env["tokens"] = n["tokens"]
             txt = sp["to"].format(**env)
@@ -500,6 +513,21 @@ def r6_mem_replace(src, item, ed, opts):
             ed.count("R6")
 
 
+def r8_iter_any(src, item, ed, opts):
+    """`X.iter().any(|n| n == Y)` -> `vx_contains(&X, Y)`"""
+    for n in nodes_of(item, "methodcall"):
+        if n["method"] != "any" or len(n["args"]) != 1:
+            continue
+        recv = src.text(*n["receiver"]).strip()
+        m0 = re.fullmatch(r"(.+)\.iter\(\)", recv, re.S)
+        arg = src.text(*n["args"][0]["range"]).strip()
+        m1 = re.fullmatch(r"\|\s*(\w+)\s*\|\s*(\w+)\s*==\s*(.+)", arg, re.S)
+        if not m0 or not m1 or m1.group(1) != m1.group(2):
+            raise Unsupported(f"R8 expects X.iter().any(|n| n == Y), found {recv}.any({arg})")
+        ed.replace(n["range"][0], n["range"][1], f"vx_contains(&{m0.group(1)}, {m1.group(3).strip()})", "R8", subsume=True)
+        ed.count("R8")
+
+
 def r25_closure_wildcard(src, item, ed, opts):
     """closure parameter `_` -> a fresh variable name (Verus accepts only variables there)"""
     for j, p in enumerate(item.get("inputs", [])):
@@ -515,6 +543,7 @@ def r25_closure_wildcard(src, item, ed, opts):
 
 RULES = {
     "R6": r6_mem_replace,
+    "R8": r8_iter_any,
     "R25": r25_closure_wildcard,
     "R1": r1_format,
     "R2": r2_panic,
